@@ -42,7 +42,14 @@ type stepper interface {
 	State() tlc.State
 }
 
-func runSystem(w *sim.World, wd *env.World, sys tlc.System, key string, st stepper, settle func(bool), maxSteps int) {
+// aux is a process of the spec that is not an archetype (no generated code): the harness
+// transcribes it; its steps are validated by TLC like any other.
+type aux struct {
+	Enabled func() bool
+	Step    func() string
+}
+
+func runSystem(w *sim.World, wd *env.World, sys tlc.System, key string, st stepper, settle func(bool), maxSteps int, auxs ...aux) {
 	tr := tlc.Trace{}
 	tr.States = append(tr.States, st.State())
 	tr.Steps = append(tr.Steps, "initial")
@@ -60,10 +67,23 @@ func runSystem(w *sim.World, wd *env.World, sys tlc.System, key string, st stepp
 	tr.States[0] = st.State()
 	for steps := 0; steps < maxSteps; steps++ {
 		en := wd.Enabled()
-		if len(en) == 0 {
+		var ax []aux
+		for _, x := range auxs {
+			if x.Enabled() {
+				ax = append(ax, x)
+			}
+		}
+		if len(en)+len(ax) == 0 {
 			break
 		}
-		a := en[w.Choose(sim.KSched, len(en))]
+		pick := w.Choose(sim.KSched, len(en)+len(ax))
+		if pick >= len(en) {
+			what := ax[pick-len(en)].Step()
+			tr.States = append(tr.States, st.State())
+			tr.Steps = append(tr.Steps, what)
+			continue
+		}
+		a := en[pick]
 		wd.Step(a)
 		if w.Failed() {
 			return
@@ -101,14 +121,29 @@ func pick(w *sim.World, n int, quickVals ...int) int {
 func scenario(w *sim.World) {
 	last.valid = false
 	wd := env.NewWorld(w)
-	switch w.Choose(sim.KCfg, 6) {
+	switch w.Choose(sim.KCfg, 9) {
+	case 8:
+		n, rounds := 1+pick(w, 3, 1), 1+pick(w, 2, 0, 1)
+		sc := envsys.NewShopCart(wd, n, rounds)
+		w.Event("system shopcart nodes=%d rounds=%d", n, rounds)
+		runSystem(w, wd, sc.TLCSystem(repoRoot), fmt.Sprintf("shopcart/%d/%d", n, rounds), sc, nil, 30+20*n*n*rounds, aux{sc.MergeEnabled, func() string { return sc.MergeStep(w) }})
+	case 7:
+		n := 1 + pick(w, 3, 1, 2)
+		g := envsys.NewGCounter(wd, n)
+		w.Event("system gcounter nodes=%d", n)
+		runSystem(w, wd, g.TLCSystem(repoRoot), fmt.Sprintf("gcounter/%d", n), g, nil, 30+10*n*n, aux{g.MergeEnabled, func() string { return g.MergeStep(w) }})
+	case 6:
+		n := 1 + pick(w, 4, 1, 2)
+		sc := envsys.NewShCounter(wd, n)
+		w.Event("system shcounter nodes=%d", n)
+		runSystem(w, wd, sc.TLCSystem(repoRoot), fmt.Sprintf("shcounter/%d", n), sc, nil, 20+10*n)
 	case 5:
 		ns, nc, explore := 1+pick(w, 2, 1), 1+pick(w, 2, 0, 1), pick(w, 3, 1) != 0
 		p := envsys.NewProxy(wd, ns, nc, explore, false) // PracticalFD, as the shipped spec instantiates
 		w.Event("system proxy servers=%d clients=%d explore=%v", ns, nc, explore)
 		runSystem(w, wd, p.TLCSystem(repoRoot), fmt.Sprintf("proxy/%d/%d/%v", ns, nc, explore), p, nil, 60+w.Choose(sim.KCfg, 120))
 	case 4:
-		ns, nc, buf := 1+pick(w, 3, 1), 1+pick(w, 2, 1), 1+pick(w, 2, 0, 1)
+		ns, nc, buf := 1+pick(w, 3, 0, 2), 1+pick(w, 2, 1), 1+pick(w, 2, 0, 1) // quick: servers != clients, so a confusion of the two constants shows
 		l := envsys.NewLoadBalancer(wd, ns, nc, buf, false)
 		w.Event("system loadbalancer servers=%d clients=%d buffer=%d", ns, nc, buf)
 		runSystem(w, wd, l.TLCSystem(repoRoot), fmt.Sprintf("load_balancer/%d/%d/%d", ns, nc, buf), l, nil, 40+w.Choose(sim.KCfg, 100))
